@@ -69,3 +69,8 @@ func verifVariableSize(size uint32, enc *Encoder) int {
 	encodeVariable2(size, enc)
 	return n
 }
+
+// The fixed header byte: what ToFixHeaderUint8 packs, FramerFromUint8 unpacks.
+func verifFixHeaderRoundTrip(f frame.Framer) frame.Framer {
+	return FramerFromUint8(ToFixHeaderUint8(f))
+}
